@@ -33,3 +33,67 @@ Theorem C15_ln_same_object : forall w f sp dp w',
   exists fo o, resolve w f sp = Found fo o /\ resolves w' f dp fo o /\ world_le w w'.
 Proof. exact ln_spec. Qed.
 Print Assumptions C15_ln_same_object.
+
+(** ---- the full statements that are FALSE of the faithful model (known findings), with witnesses *)
+
+(** "listing = exactly the collections held" fails on a hard link to an ancestor (D14a): the traversal
+    never terminates within its budget (RecursionError) although /a/b is a collection *)
+Theorem C15_listing_exact_refuted_cycle :
+  list_coolers w_cycle FA = (ERecursion, []) /\ is_cooler w_cycle FA ["a"; "b"]%string = TTrue.
+Proof. exact listing_cycle_refuted. Qed.
+Print Assumptions C15_listing_exact_refuted_cycle.
+
+(** ... on an external link (D14b): /e is a collection of file B but the listing reports /x *)
+Theorem C15_listing_exact_refuted_external :
+  list_coolers w_ext FB = (Ok, [sx]) /\ is_cooler w_ext FB ["e"%string] = TTrue /\ is_cooler w_ext FB sx = TFalse.
+Proof. exact listing_external_refuted. Qed.
+Print Assumptions C15_listing_exact_refuted_external.
+
+(** ... on a dangling link (D14c): the listing raises although /z is a collection *)
+Theorem C15_listing_exact_refuted_dangling :
+  list_coolers w_dangling FA = (EAttr, []) /\ is_cooler w_dangling FA ["z"%string] = TTrue /\
+  is_cooler w_dangling FA ["y"%string] = TFalse.
+Proof. exact listing_dangling_refuted. Qed.
+Print Assumptions C15_listing_exact_refuted_dangling.
+
+(** "after mv the destination reads as the source" fails for a destination inside the moved group (D23) *)
+Theorem C15_mv_spec_refuted :
+  let w := run world0 [OCreate FA sx false (tiny 1)] in
+  let r := mv w FA sx FA sxy false in
+  fst r = Ok /\ resolve (snd r) FA sxy = Missing true /\
+  resolve (snd r) FA sx = Missing false /\ list_coolers (snd r) FA = (Ok, []).
+Proof. exact mv_spec_refuted. Qed.
+Print Assumptions C15_mv_spec_refuted.
+
+(** "a failed operation leaves both files unchanged" fails for mv of the root collection (D24) ... *)
+Theorem C15_error_frame_refuted_mv_root :
+  let w := run world0 [OCreate FA [] false (tiny 1)] in
+  let r := mv w FA [] FA sx false in
+  fst r = EKey /\ is_cooler w FA sx = TFalse /\ is_cooler (snd r) FA sx = TTrue.
+Proof. exact mv_root_error_changes_file. Qed.
+Print Assumptions C15_error_frame_refuted_mv_root.
+
+(** ... and under the overwrite flag (documented: the destination file is truncated first) *)
+Theorem C15_error_frame_refuted_overwrite :
+  let w := run world0 [OCreate FA sx false (tiny 1); OCreate FB sx false (tiny 2)] in
+  let r := ln w FA sx FB ["y"%string] false true in
+  fst r = EOS /\ is_cooler w FB sx = TTrue /\ is_cooler (snd r) FB sx = TFalse.
+Proof. exact error_frame_overwrite_refuted. Qed.
+Print Assumptions C15_error_frame_refuted_overwrite.
+
+(** "a soft link reads as its source" fails when the destination lies behind an external link (D26) *)
+Theorem C15_ln_soft_refuted_behind_external :
+  let w := run world0 [OCreate FA sxy false (tiny 1); OCreate FB ["z"%string] false (tiny 2);
+                       OCopy FA sxy FB sx false false false true] in
+  let r := ln w FB ["z"%string] FB sxy true false in
+  fst r = Ok /\ is_cooler w FB ["z"%string] = TTrue /\ is_cooler (snd r) FB sxy = TFalse /\
+  lookup_link (snd r) FA 2%nat "y"%string = Some (Soft ["z"%string]).
+Proof. exact lns_behind_external_refuted. Qed.
+Print Assumptions C15_ln_soft_refuted_behind_external.
+
+(** non-vacuity: a concrete successful hard link *)
+Example ex_C15_ln :
+  let w := run world0 [OCreate FA sx false (tiny 1)] in
+  let r := ln w FA sx FA ["z"%string] false false in
+  fst r = Ok /\ resolve (snd r) FA ["z"%string] = resolve w FA sx /\ resolve w FA sx = Found FA 1%nat.
+Proof. exact ex_ln_ok. Qed.
